@@ -189,11 +189,11 @@ func genValidationOpts(rt *rapid.T, label string) []ygot.ValidationOption {
 
 // ---- the property --------------------------------------------------------------------------------------
 
+// rapid's SampledFrom favours the ends of the list: the APIs with the richest argument space sit there.
 var c11APIs = []string{
-	"GetNode", "Validate", "EmitJSON", "ConstructIETFJSON", "ConstructInternalJSON", "Marshal7951",
-	"TogNMINotifications", "EncodeTypedValue", "Diff", "DiffWithAtomic", "DeepCopy", "MergeStructs",
-	"ytypes.Unmarshal", "generated.Unmarshal", "SetNode", "UnmarshalSetRequest",
-	"gnmidiff.DiffSetRequest", "gnmidiff.DiffSetRequestToNotifications",
+	"SetNode", "gnmidiff.DiffSetRequest", "EncodeTypedValue", "ytypes.Unmarshal", "UnmarshalSetRequest", "Diff", "MergeStructs",
+	"TogNMINotifications", "generated.Unmarshal", "DiffWithAtomic", "DeepCopy", "Marshal7951", "EmitJSON", "ConstructIETFJSON",
+	"ConstructInternalJSON", "Validate", "gnmidiff.DiffSetRequestToNotifications", "GetNode",
 }
 
 type okCounter struct {
@@ -665,14 +665,12 @@ func c11Prepare(c *c11case) func() {
 			c.note("%s", describeTree("target root (is meant to be written)", v, base))
 		}
 		var opts []ytypes.UnmarshalOpt
-		optName := rapid.SampledFrom([]string{"none", "none", "ignore-extra", "shadow", "best-effort"}).Draw(rt, "opt")
+		optName := rapid.SampledFrom([]string{"none", "none", "ignore-extra", "shadow"}).Draw(rt, "opt")
 		switch optName {
 		case "ignore-extra":
 			opts = append(opts, &ytypes.IgnoreExtraFields{})
 		case "shadow":
 			opts = append(opts, &ytypes.PreferShadowPath{})
-		case "best-effort":
-			opts = append(opts, &ytypes.BestEffortUnmarshal{})
 		}
 		c.note("opts = %s", optName)
 		c.note("document = %s", th.Trunc(string(doc), 3000))
